@@ -25,6 +25,9 @@ type C13Case struct {
 	WaitMs     int    `json:"waitMs"` // reconcile only
 	Gaps       []int  `json:"gaps"`   // per-mille of the interval; first arrival after Gaps[0]
 	Real       bool   `json:"real"`   // also drive the real queue (part B)
+	// FailRuns (real reload queue only): the runs, counted from 0, whose sync func returns an error - a reload that
+	// failed. The queue adds the item again by itself (one more call of the limiter), and that run must happen too.
+	FailRuns []int `json:"failRuns,omitempty"`
 }
 
 func genC13(t *rapid.T) C13Case {
@@ -39,6 +42,9 @@ func genC13(t *rapid.T) C13Case {
 	n := rapid.IntRange(3, 8).Draw(t, "narrivals")
 	for i := 0; i < n; i++ {
 		c.Gaps = append(c.Gaps, rapid.SampledFrom([]int{0, 0, 100, 300, 500, 500, 600, 900, 950, 1050, 1100, 1300, 2500}).Draw(t, "gap"))
+	}
+	if c.Real && c.Limiter == "reload" && chanceT(t, "failruns", 35) {
+		c.FailRuns = dedupInts(rapid.SliceOfN(rapid.IntRange(0, n), 1, 2).Draw(t, "failrun"))
 	}
 	return c
 }
@@ -188,7 +194,24 @@ func execC13(c C13Case) *Failure {
 		}
 		if c.Limiter == "reload" {
 			lim := &recLimiter[any]{inner: workqueue.ReloadHAProxyRateLimiter(interval), start: start}
-			q := workqueue.New(func(context.Context, any) error { record(); return nil }, lim)
+			failed := 0 // under obsMu
+			q := workqueue.New(func(context.Context, any) error {
+				obsMu.Lock()
+				k := len(observed)
+				fail := false
+				for _, f := range c.FailRuns {
+					fail = fail || f == k
+				}
+				if fail {
+					failed++
+				}
+				obsMu.Unlock()
+				record()
+				if fail {
+					return fmt.Errorf("reload failed")
+				}
+				return nil
+			}, lim)
 			done := make(chan struct{})
 			go func() { _ = q.Start(ctx); close(done) }()
 			for _, a := range arrivals {
@@ -197,8 +220,13 @@ func execC13(c C13Case) *Failure {
 			}
 			sleepUntil(start, arrivals[len(arrivals)-1]+2*interval+wait+20*time.Millisecond)
 			graceForLastRun(&obsMu, &observed, func() time.Duration {
+				// (called with obsMu held) every arrival and every failed run calls the limiter once: until the queue has
+				// added a failed item again, the last call is not known yet
 				lim.mu.Lock()
 				defer lim.mu.Unlock()
+				if len(lim.calls) < len(arrivals)+failed {
+					return time.Hour
+				}
 				return lim.calls[len(lim.calls)-1].tb
 			})
 			cancel()
@@ -541,4 +569,17 @@ func init() { registerReplay("C13S", execC13Sites) }
 
 func TestC13Sites(t *testing.T) {
 	runPropertyAs(t, "C13", "C13S", genC13Sites, execC13Sites)
+}
+
+
+func dedupInts(l []int) []int {
+	seen := map[int]bool{}
+	var out []int
+	for _, v := range l {
+		if !seen[v] {
+			seen[v] = true
+			out = append(out, v)
+		}
+	}
+	return out
 }
